@@ -1,4 +1,860 @@
+/-
+  Lemmas/ConcRC.lean — invariants of the small-step rolling-counter model (CircuitModel/Conc/RC.lean), used by
+  Props/C14.lean.  Structure:
+    * `run_inv`: an invariant preserved by every step holds after every schedule;
+    * `SR`: the step function as a relation with one constructor per branch (`step_spec`);
+    * per-step "delta" lemmas `sr_*`, one per invariant component;
+    * the global invariants `Inv`, `InvP`, `InvNR` and their preservation.
+-/
 import CircuitModel.Conc.RC
 import CircuitProofs.Lemmas.Conc
 namespace CM.Conc
+open CM.Conc.RC
+
+/-! ### generic -/
+
+theorem run_inv {σ loc : Type} (S : Sys σ loc) (I : Config σ loc → Prop)
+    (hstep : ∀ (c : Config σ loc) (i : Nat) (l : loc) (s' : σ) (l' : loc), I c → c.locals[i]? = some l →
+      S.step i c.shared l = some (s', l') → I { shared := s', locals := c.locals.set i l' })
+    (c : Config σ loc) (h : I c) (sched : List Nat) : I (run S c sched) := by
+  induction sched generalizing c with
+  | nil => exact h
+  | cons i rest ih =>
+    simp only [run]
+    split
+    · exact ih c h
+    · rename_i l hl
+      split
+      · exact ih c h
+      · rename_i s' l' hs
+        exact ih _ (hstep c i l s' l' h hl hs)
+
+theorem run_app {σ loc : Type} (S : Sys σ loc) (c : Config σ loc) (a b : List Nat) :
+    run S c (a ++ b) = run S (run S c a) b := by
+  induction a generalizing c with
+  | nil => rfl
+  | cons i rest ih =>
+    simp only [List.cons_append, run]
+    split
+    · exact ih c
+    · split
+      · exact ih c
+      · exact ih _
+
+/-! ### lists -/
+
+theorem sum_map_set {α : Type} (f : α → Int) : ∀ (ls : List α) (i : Nat) (l l' : α), ls[i]? = some l →
+    ((ls.set i l').map f).sum = (ls.map f).sum - f l + f l'
+  | [], i, l, l', h => by simp at h
+  | x :: xs, 0, l, l', h => by
+    simp at h; subst h; simp; omega
+  | x :: xs, i+1, l, l', h => by
+    simp at h
+    have ih := sum_map_set f xs i l l' h
+    simp only [List.set_cons_succ, List.map_cons, List.sum_cons, ih]; omega
+
+theorem sum_set (bs : List Int) (i : Nat) (v : Int) (h : i < bs.length) :
+    (bs.set i v).sum = bs.sum - bs.getD i 0 + v := by
+  have h1 : bs[i]? = some (bs.getD i 0) := by simp [List.getD_eq_getElem?_getD, h]
+  have := sum_map_set id bs i _ v h1
+  simpa using this
+
+theorem getD_nonneg (bs : List Int) (i : Nat) (h : ∀ b ∈ bs, 0 ≤ b) : 0 ≤ bs.getD i 0 := by
+  rw [List.getD_eq_getElem?_getD]
+  cases hb : bs[i]? with
+  | none => simp
+  | some b => simpa using h b (List.mem_of_getElem? hb)
+
+theorem set_nonneg (bs : List Int) (i : Nat) (v : Int) (h : ∀ b ∈ bs, 0 ≤ b) (hv : 0 ≤ v) :
+    ∀ b ∈ bs.set i v, 0 ≤ b := by
+  intro b hb
+  rcases List.mem_or_eq_of_mem_set hb with hb | rfl
+  · exact h b hb
+  · exact hv
+
+theorem mem_set_cases_rc {α : Type} (ls : List α) (i : Nat) (l l' x : α) (hi : ls[i]? = some l) (hx : x ∈ ls) :
+    x = l ∨ x ∈ ls.set i l' := by
+  rcases List.mem_iff_getElem.mp hx with ⟨j, hj, rfl⟩
+  by_cases hij : i = j
+  · subst hij
+    left
+    rw [List.getElem?_eq_getElem hj] at hi
+    exact Option.some.inj hi
+  · right
+    apply List.mem_iff_getElem.mpr
+    refine ⟨j, by simpa using hj, ?_⟩
+    simp [hij]
+
+theorem sum_map_zero {α : Type} (f : α → Int) (ls : List α) (h : ∀ x ∈ ls, f x = 0) : (ls.map f).sum = 0 := by
+  induction ls with
+  | nil => rfl
+  | cons x xs ih =>
+    simp only [List.map_cons, List.sum_cons]
+    rw [h x (by simp), ih (fun y hy => h y (by simp [hy]))]; rfl
+
+theorem sum_nonneg (bs : List Int) (h : ∀ b ∈ bs, 0 ≤ b) : 0 ≤ bs.sum := by
+  induction bs with
+  | nil => exact Int.le_refl 0
+  | cons x xs ih =>
+    simp only [List.sum_cons]
+    have h1 := h x (by simp)
+    have h2 := ih (fun y hy => h y (by simp [hy]))
+    omega
+
+theorem sum_replicate_zero (n : Nat) : (List.replicate n (0 : Int)).sum = 0 := by
+  induction n with
+  | zero => rfl
+  | succ k ih => simp [List.replicate_succ, ih]
+
+theorem cast_sum_map {α : Type} (f : α → Nat) (ls : List α) :
+    (((ls.map f).sum : Nat) : Int) = (ls.map (fun x => (f x : Int))).sum := by
+  induction ls with
+  | nil => rfl
+  | cons x xs ih => simp [ih]
+
+theorem le_foldl_max (xs : List Nat) (m a : Nat) (h : a ≤ m ∨ a ∈ xs) : a ≤ xs.foldl max m := by
+  induction xs generalizing m with
+  | nil => simpa using h
+  | cons x xs ih =>
+    simp only [List.foldl_cons]
+    apply ih
+    rcases h with h | h
+    · left; omega
+    · rcases List.mem_cons.mp h with rfl | h
+      · left; omega
+      · right; exact h
+
+theorem foldl_max_le (xs : List Nat) (m b : Nat) (hm : m ≤ b) (h : ∀ a ∈ xs, a ≤ b) : xs.foldl max m ≤ b := by
+  induction xs generalizing m with
+  | nil => simpa using hm
+  | cons x xs ih =>
+    simp only [List.foldl_cons]
+    apply ih
+    · have := h x (by simp); omega
+    · intro a ha; exact h a (by simp [ha])
+
+/-! ### the step function as a relation -/
+
+def opIncN : Op → Nat
+  | .inc _ => 1
+  | _ => 0
+
+def opCont : Op → Cont
+  | .inc _ => .inc
+  | .sumAt _ => .sumAt
+  | .getBuckets _ => .getBuckets
+  | .reset _ => .reset
+
+def bumpReq (m : Nat) : Option Nat → Nat
+  | some a => max m a
+  | none => m
+
+/-- `step` as a relation: one constructor per branch of the model -/
+inductive SR (s : Shared) (l : Local) (s' : Shared) (l' : Local) : Prop
+  | op (o : Op) (rest : List Op) (hpc : l.pc = .next) (hp : l.prog = o :: rest)
+      (hs : s' = { s with total := s.total + (opIncN o : Int) })
+      (hl : l' = { l with prog := rest, pc := enterAdvance o.req (opCont o),
+                          incsStarted := l.incsStarted + opIncN o, maxReq := bumpReq l.maxReq o.req })
+  | loadHit (abs : Nat) (k : Cont) (hpc : l.pc = .advLoad abs k) (hle : abs ≤ s.last)
+      (hs : s' = s)
+      (hl : l' = { l with sawLast := max l.sawLast s.last, pc := afterAdvance k (some (abs % s.n)) })
+  | loadOld (abs : Nat) (k : Cont) (hpc : l.pc = .advLoad abs k) (hlt : abs < s.last)
+      (hs : s' = s)
+      (hl : l' = { l with sawLast := max l.sawLast s.last, pc := afterAdvance k none })
+  | loadNew (abs : Nat) (k : Cont) (hpc : l.pc = .advLoad abs k) (hgt : s.last < abs)
+      (hs : s' = s)
+      (hl : l' = { l with sawLast := max l.sawLast s.last,
+                          pc := if 0 < s.n then .advCas abs s.last 0 k else .advFinalCas abs s.last k })
+  | casOk (abs lastVal i : Nat) (k : Cont) (hpc : l.pc = .advCas abs lastVal i k) (heq : s.last = lastVal)
+      (hs : s' = { s with last := lastVal + 1 })
+      (hl : l' = { l with pc := .advSwap abs (lastVal + 1) i k })
+  | casFail (abs lastVal i : Nat) (k : Cont) (hpc : l.pc = .advCas abs lastVal i k) (hne : s.last ≠ lastVal)
+      (hs : s' = s)
+      (hl : l' = { l with pc := .advLoad abs k })
+  | swap (abs lastVal i : Nat) (k : Cont) (hpc : l.pc = .advSwap abs lastVal i k)
+      (hs : s' = { s with buckets := s.buckets.set (lastVal % s.n) 0 })
+      (hl : l' = { l with pc := .advDec abs lastVal i (s.buckets.getD (lastVal % s.n) 0) k })
+  | dec (abs lastVal i : Nat) (x : Int) (k : Cont) (hpc : l.pc = .advDec abs lastVal i x k)
+      (hs : s' = { s with rolling := s.rolling - x })
+      (hl : l' = { l with pc := if i + 1 < s.n ∧ lastVal < abs then .advCas abs lastVal (i + 1) k
+                                else .advFinalCas abs lastVal k })
+  | finalCas (abs lastVal : Nat) (k : Cont) (hpc : l.pc = .advFinalCas abs lastVal k)
+      (hs : s' = if s.last = lastVal then { s with last := abs } else s)
+      (hl : l' = { l with pc := .advLoad abs k })
+  | incBucket (idx : Nat) (hpc : l.pc = .incBucket idx)
+      (hs : s' = { s with buckets := s.buckets.set idx (s.buckets.getD idx 0 + 1) })
+      (hl : l' = { l with pc := .incRolling })
+  | incRolling (hpc : l.pc = .incRolling)
+      (hs : s' = { s with rolling := s.rolling + 1 })
+      (hl : l' = { l with pc := .next })
+  | sumLoad (hpc : l.pc = .sumLoad) (hs : s' = s) (hl : l' = { l with pc := .next })
+  | gbLast (hpc : l.pc = .gbLast) (hs : s' = s)
+      (hl : l' = { l with pc := if 0 < s.n then .gbLoad (s.last % s.n) 0 else .next,
+                          sawLast := max l.sawLast s.last })
+  | gbLoad (startIdx i : Nat) (hpc : l.pc = .gbLoad startIdx i) (hs : s' = s)
+      (hl : l' = { l with pc := if i + 1 < s.n then .gbLoad startIdx (i + 1) else .next })
+  | rsSwap (i : Nat) (hpc : l.pc = .rsSwap i) (hi : i < s.n)
+      (hs : s' = { s with buckets := s.buckets.set i 0 })
+      (hl : l' = { l with pc := .rsDec i (s.buckets.getD i 0) })
+  | rsDone (i : Nat) (hpc : l.pc = .rsSwap i) (hi : ¬ i < s.n) (hs : s' = s) (hl : l' = { l with pc := .next })
+  | rsDec (i : Nat) (x : Int) (hpc : l.pc = .rsDec i x)
+      (hs : s' = { s with rolling := s.rolling - x })
+      (hl : l' = { l with pc := .rsSwap (i + 1) })
+
+theorem step_spec (tid : Nat) (s s' : Shared) (l l' : Local) (h : step tid s l = some (s', l')) :
+    SR s l s' l' := by
+  cases hpc : l.pc with
+  | next =>
+    cases hp : l.prog with
+    | nil => simp [step, hpc, hp] at h
+    | cons o rest =>
+      cases o with
+      | inc r =>
+        simp only [step, hpc, hp, Option.some.injEq, Prod.mk.injEq] at h
+        refine SR.op (.inc r) rest hpc hp ?_ ?_
+        · rw [← h.1]; simp [opIncN]
+        · rw [← h.2]; cases r <;> simp [opIncN, opCont, Op.req, bumpReq]
+      | sumAt r =>
+        simp only [step, hpc, hp, Option.some.injEq, Prod.mk.injEq] at h
+        refine SR.op (.sumAt r) rest hpc hp ?_ ?_
+        · rw [← h.1]; simp [opIncN]
+        · rw [← h.2]; cases r <;> simp [opIncN, opCont, Op.req, bumpReq]
+      | getBuckets r =>
+        simp only [step, hpc, hp, Option.some.injEq, Prod.mk.injEq] at h
+        refine SR.op (.getBuckets r) rest hpc hp ?_ ?_
+        · rw [← h.1]; simp [opIncN]
+        · rw [← h.2]; cases r <;> simp [opIncN, opCont, Op.req, bumpReq]
+      | reset r =>
+        simp only [step, hpc, hp, Option.some.injEq, Prod.mk.injEq] at h
+        refine SR.op (.reset r) rest hpc hp ?_ ?_
+        · rw [← h.1]; simp [opIncN]
+        · rw [← h.2]; cases r <;> simp [opIncN, opCont, Op.req, bumpReq]
+  | advLoad abs k =>
+    simp only [step, hpc] at h
+    by_cases h1 : abs = s.last
+    · simp only [h1, if_true, Option.some.injEq, Prod.mk.injEq] at h
+      exact SR.loadHit abs k hpc (by omega) h.1.symm (by rw [← h.2, ← h1])
+    · by_cases h2 : abs < s.last
+      · by_cases h3 : s.last - abs ≥ s.n
+        · simp only [h1, h2, h3, if_true, if_false, Option.some.injEq, Prod.mk.injEq] at h
+          exact SR.loadOld abs k hpc h2 h.1.symm h.2.symm
+        · simp only [h1, h2, h3, if_true, if_false, Option.some.injEq, Prod.mk.injEq] at h
+          exact SR.loadHit abs k hpc (by omega) h.1.symm h.2.symm
+      · simp only [h1, h2, if_false, Option.some.injEq, Prod.mk.injEq] at h
+        exact SR.loadNew abs k hpc (by omega) h.1.symm h.2.symm
+  | advCas abs lastVal i k =>
+    simp only [step, hpc] at h
+    by_cases h1 : s.last = lastVal
+    · simp only [h1, if_true, Option.some.injEq, Prod.mk.injEq] at h
+      exact SR.casOk abs lastVal i k hpc h1 h.1.symm h.2.symm
+    · simp only [h1, if_false, Option.some.injEq, Prod.mk.injEq] at h
+      exact SR.casFail abs lastVal i k hpc h1 h.1.symm h.2.symm
+  | advSwap abs lastVal i k =>
+    simp only [step, hpc, Option.some.injEq, Prod.mk.injEq] at h
+    exact SR.swap abs lastVal i k hpc h.1.symm h.2.symm
+  | advDec abs lastVal i x k =>
+    simp only [step, hpc, Option.some.injEq, Prod.mk.injEq] at h
+    exact SR.dec abs lastVal i x k hpc h.1.symm h.2.symm
+  | advFinalCas abs lastVal k =>
+    simp only [step, hpc, Option.some.injEq, Prod.mk.injEq] at h
+    exact SR.finalCas abs lastVal k hpc h.1.symm h.2.symm
+  | incBucket idx =>
+    simp only [step, hpc, Option.some.injEq, Prod.mk.injEq] at h
+    exact SR.incBucket idx hpc h.1.symm h.2.symm
+  | incRolling =>
+    simp only [step, hpc, Option.some.injEq, Prod.mk.injEq] at h
+    exact SR.incRolling hpc h.1.symm h.2.symm
+  | sumLoad =>
+    simp only [step, hpc, Option.some.injEq, Prod.mk.injEq] at h
+    exact SR.sumLoad hpc h.1.symm h.2.symm
+  | gbLast =>
+    simp only [step, hpc, Option.some.injEq, Prod.mk.injEq] at h
+    exact SR.gbLast hpc h.1.symm h.2.symm
+  | gbLoad startIdx i =>
+    simp only [step, hpc, Option.some.injEq, Prod.mk.injEq] at h
+    exact SR.gbLoad startIdx i hpc h.1.symm h.2.symm
+  | rsSwap i =>
+    simp only [step, hpc] at h
+    by_cases h1 : i < s.n
+    · simp only [h1, if_true, Option.some.injEq, Prod.mk.injEq] at h
+      exact SR.rsSwap i hpc h1 h.1.symm h.2.symm
+    · simp only [h1, if_false, Option.some.injEq, Prod.mk.injEq] at h
+      exact SR.rsDone i hpc h1 h.1.symm h.2.symm
+  | rsDec i x =>
+    simp only [step, hpc, Option.some.injEq, Prod.mk.injEq] at h
+    exact SR.rsDec i x hpc h.1.symm h.2.symm
+
+/-! ### functions of the program counter -/
+
+/-- what a thread at this pc still owes the rolling sum -/
+def owesPc : Pc → Int
+  | .advDec _ _ _ x _ => -x
+  | .rsDec _ x => -x
+  | .incRolling => 1
+  | _ => 0
+
+def kInc : Cont → Int
+  | .inc => 1
+  | _ => 0
+
+/-- 1 iff the thread is inside an Inc whose `totalSum.Add(1)` is done but whose bucket `Add(1)` is still to come -/
+def preInc : Pc → Int
+  | .advLoad _ k => kInc k
+  | .advCas _ _ _ k => kInc k
+  | .advSwap _ _ _ k => kInc k
+  | .advDec _ _ _ _ k => kInc k
+  | .advFinalCas _ _ k => kInc k
+  | .incBucket _ => 1
+  | _ => 0
+
+/-- the index the thread is currently advancing to (0 outside Advance) -/
+def curAbs : Pc → Nat
+  | .advLoad a _ => a
+  | .advCas a _ _ _ => a
+  | .advSwap a _ _ _ => a
+  | .advDec a _ _ _ _ => a
+  | .advFinalCas a _ _ => a
+  | _ => 0
+
+/-- well-formedness of the values a pc carries -/
+def WPc (n : Nat) : Pc → Prop
+  | .advCas abs lastVal _ _ => lastVal < abs
+  | .advSwap abs lastVal _ _ => lastVal ≤ abs
+  | .advDec abs lastVal _ _ _ => lastVal ≤ abs
+  | .advFinalCas abs lastVal _ => lastVal ≤ abs
+  | .incBucket idx => idx < n
+  | _ => True
+
+theorem kInc_nonneg (k : Cont) : 0 ≤ kInc k := by cases k <;> simp [kInc]
+
+@[simp] theorem owesPc_after (k : Cont) (x : Option Nat) : owesPc (afterAdvance k x) = 0 := by
+  cases k <;> cases x <;> rfl
+@[simp] theorem owesPc_enter (r : Option Nat) (k : Cont) : owesPc (enterAdvance r k) = 0 := by
+  cases r
+  · exact owesPc_after k none
+  · rfl
+@[simp] theorem preInc_after_some (k : Cont) (i : Nat) : preInc (afterAdvance k (some i)) = kInc k := by
+  cases k <;> rfl
+@[simp] theorem preInc_after_none (k : Cont) : preInc (afterAdvance k none) = 0 := by
+  cases k <;> rfl
+@[simp] theorem preInc_enter_some (a : Nat) (k : Cont) : preInc (enterAdvance (some a) k) = kInc k := rfl
+@[simp] theorem preInc_enter_none (k : Cont) : preInc (enterAdvance none k) = 0 := by
+  simp [enterAdvance]
+@[simp] theorem curAbs_after (k : Cont) (x : Option Nat) : curAbs (afterAdvance k x) = 0 := by
+  cases k <;> cases x <;> rfl
+@[simp] theorem curAbs_enter_some (a : Nat) (k : Cont) : curAbs (enterAdvance (some a) k) = a := rfl
+@[simp] theorem curAbs_enter_none (k : Cont) : curAbs (enterAdvance none k) = 0 := by
+  simp [enterAdvance]
+theorem WPc_after_some (n : Nat) (k : Cont) (i : Nat) (h : i < n) : WPc n (afterAdvance k (some i)) := by
+  cases k <;> simp [afterAdvance, WPc, h]
+@[simp] theorem WPc_after_none (n : Nat) (k : Cont) : WPc n (afterAdvance k none) := by
+  cases k <;> simp [afterAdvance, WPc]
+@[simp] theorem WPc_enter (n : Nat) (r : Option Nat) (k : Cont) : WPc n (enterAdvance r k) := by
+  cases r
+  · exact WPc_after_none n k
+  · exact True.intro
+
+/-! ### per-step lemmas -/
+
+section delta
+variable {s s' : Shared} {l l' : Local}
+
+theorem sr_n (h : SR s l s' l') : s'.n = s.n := by
+  cases h <;> subst_vars <;> try rfl
+  case finalCas => split <;> rfl
+
+theorem sr_len (h : SR s l s' l') : s'.buckets.length = s.buckets.length := by
+  cases h <;> subst_vars <;> try simp
+  case finalCas => split <;> rfl
+
+theorem sr_W (h : SR s l s' l') (hn : 0 < s.n) (hW : WPc s.n l.pc) : WPc s.n l'.pc := by
+  cases h <;> subst_vars <;> dsimp only
+  case op => exact WPc_enter _ _ _
+  case loadHit abs k hpc hle => exact WPc_after_some _ _ _ (Nat.mod_lt _ hn)
+  case loadOld => exact WPc_after_none _ _
+  case loadNew abs k hpc hgt => simp only [hn, if_true]; exact hgt
+  case casOk abs i k hpc => rw [hpc] at hW; exact hW
+  case casFail => exact True.intro
+  case swap abs lastVal i k hpc => rw [hpc] at hW; exact hW
+  case dec abs lastVal i x k hpc =>
+    rw [hpc] at hW
+    split
+    · rename_i h; exact h.2
+    · exact hW
+  case finalCas => exact True.intro
+  case incBucket => exact True.intro
+  case incRolling => exact True.intro
+  case sumLoad => exact True.intro
+  case gbLast hpc => split <;> exact True.intro
+  case gbLoad a i hpc => split <;> exact True.intro
+  case rsSwap => exact True.intro
+  case rsDone => exact True.intro
+  case rsDec => exact True.intro
+
+theorem sr_nonneg (h : SR s l s' l') (hb : ∀ b ∈ s.buckets, 0 ≤ b) : ∀ b ∈ s'.buckets, 0 ≤ b := by
+  cases h <;> subst_vars <;> (try dsimp only) <;> try exact hb
+  case swap => exact set_nonneg _ _ _ hb (Int.le_refl 0)
+  case finalCas => split <;> exact hb
+  case incBucket idx hpc => exact set_nonneg _ _ _ hb (by have := getD_nonneg s.buckets idx hb; omega)
+  case rsSwap => exact set_nonneg _ _ _ hb (Int.le_refl 0)
+
+theorem sr_total (h : SR s l s' l') : s'.total - (l'.incsStarted : Int) = s.total - (l.incsStarted : Int) := by
+  cases h <;> subst_vars <;> (try dsimp only) <;> try rfl
+  case op => omega
+  case finalCas => split <;> rfl
+
+theorem sr_cons (h : SR s l s' l') (hn : 0 < s.n) (hlen : s.buckets.length = s.n) (hW : WPc s.n l.pc) :
+    s'.rolling + owesPc l'.pc - s'.buckets.sum = s.rolling + owesPc l.pc - s.buckets.sum := by
+  cases h <;> subst_vars <;> (try dsimp only) <;> (repeat' split) <;>
+    (try simp only [*, owesPc_after, owesPc_enter]) <;> (try simp only [owesPc]) <;> (try omega)
+  case swap abs lastVal i k hpc =>
+    rw [sum_set _ _ _ (by rw [hlen]; exact Nat.mod_lt _ hn)]; omega
+  case incBucket idx hpc =>
+    rw [hpc] at hW
+    rw [sum_set _ _ _ (by rw [hlen]; exact hW)]; omega
+  case rsSwap i hpc hi =>
+    rw [sum_set _ _ _ (by rw [hlen]; exact hi)]; omega
+
+theorem preInc_enter_op (o : Op) : preInc (enterAdvance o.req (opCont o)) ≤ (opIncN o : Int) := by
+  cases o with
+  | inc r => cases r <;> simp [Op.req, opCont, opIncN, kInc]
+  | sumAt r => cases r <;> simp [Op.req, opCont, opIncN, kInc]
+  | getBuckets r => cases r <;> simp [Op.req, opCont, opIncN, kInc]
+  | reset r => cases r <;> simp [Op.req, opCont, opIncN, kInc]
+
+/-- Σ buckets never exceeds (Inc calls started) − (Inc calls that have not yet reached their bucket) -/
+theorem sr_slack (h : SR s l s' l') (hn : 0 < s.n) (hlen : s.buckets.length = s.n) (hW : WPc s.n l.pc)
+    (hb : ∀ b ∈ s.buckets, 0 ≤ b) :
+    s'.buckets.sum + preInc l'.pc - (l'.incsStarted : Int) ≤ s.buckets.sum + preInc l.pc - (l.incsStarted : Int) := by
+  cases h <;> subst_vars <;> (try dsimp only) <;> (repeat' split) <;>
+    (try simp only [*, preInc_after_some, preInc_after_none]) <;> (try simp only [preInc]) <;> (try omega)
+  case op o rest hpc hp =>
+    have := preInc_enter_op o
+    simp only [preInc] at this; omega
+  case loadOld abs k hpc hlt => have := kInc_nonneg k; omega
+  case swap abs lastVal i k hpc =>
+    rw [sum_set _ _ _ (by rw [hlen]; exact Nat.mod_lt _ hn)]
+    have := getD_nonneg s.buckets (lastVal % s.n) hb; omega
+  case incBucket idx hpc =>
+    rw [hpc] at hW
+    rw [sum_set _ _ _ (by rw [hlen]; exact hW)]; omega
+  case rsSwap i hpc hi =>
+    rw [sum_set _ _ _ (by rw [hlen]; exact hi)]
+    have := getD_nonneg s.buckets i hb; omega
+
+def isInc : Op → Bool
+  | .inc _ => true
+  | _ => false
+
+def countInc (p : List Op) : Nat := (p.filter isInc).length
+
+theorem countInc_cons (o : Op) (rest : List Op) : countInc (o :: rest) = opIncN o + countInc rest := by
+  cases o <;> simp [countInc, isInc, opIncN, List.filter_cons] <;> omega
+
+theorem sr_count (h : SR s l s' l') :
+    l'.incsStarted + countInc l'.prog = l.incsStarted + countInc l.prog := by
+  cases h <;> subst_vars <;> (try dsimp only)
+  case op o rest hpc hp => rw [hp, countInc_cons]; omega
+
+theorem sr_mono (h : SR s l s' l') (hW : WPc s.n l.pc) : s.last ≤ s'.last := by
+  cases h <;> subst_vars <;> (try dsimp only) <;> (try exact Nat.le_refl _)
+  case casOk => omega
+  case finalCas abs lastVal k hpc =>
+    rw [hpc] at hW
+    split
+    · rename_i h; rw [h]; exact hW
+    · exact Nat.le_refl _
+
+theorem sr_prog_sub (h : SR s l s' l') : ∀ o ∈ l'.prog, o ∈ l.prog := by
+  cases h <;> subst_vars <;> (try dsimp only) <;> (try exact fun o ho => ho)
+  case op o rest hpc hp => intro o' ho'; rw [hp]; exact List.mem_cons_of_mem _ ho'
+
+theorem curAbs_enter_req (r : Option Nat) (k : Cont) : curAbs (enterAdvance r k) = r.getD 0 := by
+  cases r <;> simp
+
+theorem sr_curAbs (h : SR s l s' l') :
+    curAbs l'.pc = curAbs l.pc ∨ curAbs l'.pc = 0 ∨ ∃ o ∈ l.prog, o.req = some (curAbs l'.pc) := by
+  cases h <;> subst_vars <;> (try dsimp only) <;> (repeat' split) <;>
+    (try simp only [*, curAbs_after]) <;> (try simp only [curAbs]) <;> (try simp; done)
+  case op o rest hpc hp =>
+    cases hr : o.req with
+    | none => right; left; exact curAbs_enter_none _
+    | some a => right; right; exact ⟨o, by simp, by rw [hr]; rfl⟩
+
+theorem sr_last_le (h : SR s l s' l') (hW : WPc s.n l.pc) : s'.last = s.last ∨ s'.last ≤ curAbs l.pc := by
+  cases h <;> subst_vars <;> (try dsimp only) <;> (try exact Or.inl rfl)
+  case casOk abs i k hpc => rw [hpc] at hW ⊢; right; exact hW
+  case finalCas abs lastVal k hpc =>
+    rw [hpc]
+    split
+    · right; exact Nat.le_refl _
+    · left; rfl
+
+def ReqsLe (M : Nat) (l : Local) : Prop := (∀ o ∈ l.prog, ∀ a, o.req = some a → a ≤ M) ∧ curAbs l.pc ≤ M
+
+theorem sr_bound (h : SR s l s' l') (hW : WPc s.n l.pc) (M : Nat) (hB : ReqsLe M l) (hlast : s.last ≤ M) :
+    ReqsLe M l' ∧ s'.last ≤ M := by
+  refine ⟨⟨fun o ho a ha => hB.1 o (sr_prog_sub h o ho) a ha, ?_⟩, ?_⟩
+  · rcases sr_curAbs h with h1 | h1 | ⟨o, ho, hr⟩
+    · rw [h1]; exact hB.2
+    · rw [h1]; exact Nat.zero_le _
+    · exact hB.1 o ho _ hr
+  · rcases sr_last_le h hW with h1 | h1
+    · rw [h1]; exact hlast
+    · exact Nat.le_trans h1 hB.2
+
+/-- request `a` is still pending in thread `l`: it is being advanced to, or it is still in the program -/
+def pend (l : Local) (a : Nat) : Prop := a ≤ curAbs l.pc ∨ ∃ o ∈ l.prog, o.req = some a
+
+theorem sr_curAbs_keep (h : SR s l s' l') : curAbs l.pc ≤ curAbs l'.pc ∨ curAbs l.pc ≤ s'.last := by
+  cases h <;> subst_vars <;> (try dsimp only) <;> (repeat' split) <;>
+    (try simp only [*, curAbs_after]) <;> (try simp only [curAbs]) <;> (try simp; done)
+  case loadHit => omega
+  case loadOld => omega
+
+theorem sr_prog_keep (h : SR s l s' l') :
+    ∀ o ∈ l.prog, o ∈ l'.prog ∨ ∀ a, o.req = some a → a ≤ curAbs l'.pc := by
+  cases h <;> subst_vars <;> (try dsimp only) <;> (try exact fun o ho => Or.inl ho)
+  case op o rest hpc hp =>
+    intro o' ho'
+    rw [hp] at ho'
+    rcases List.mem_cons.mp ho' with rfl | ho'
+    · right; intro a ha; rw [ha]; exact Nat.le_refl _
+    · left; exact ho'
+
+theorem sr_pend (h : SR s l s' l') (a : Nat) (hp : pend l a) : a ≤ s'.last ∨ pend l' a := by
+  rcases hp with hp | ⟨o, ho, hr⟩
+  · rcases sr_curAbs_keep h with h1 | h1
+    · right; left; omega
+    · left; omega
+  · rcases sr_prog_keep h o ho with h1 | h1
+    · right; right; exact ⟨o, h1, hr⟩
+    · right; left; exact h1 a hr
+
+end delta
+
+/-! ### global invariants -/
+
+/-- the program-independent invariant -/
+structure Inv (n : Nat) (c : Config Shared Local) : Prop where
+  hn : c.shared.n = n
+  len : c.shared.buckets.length = n
+  W : ∀ l ∈ c.locals, WPc n l.pc
+  nonneg : ∀ b ∈ c.shared.buckets, 0 ≤ b
+  cons : c.shared.rolling + (c.locals.map (fun l => owesPc l.pc)).sum = c.shared.buckets.sum
+  total : c.shared.total = (c.locals.map (fun l => (l.incsStarted : Int))).sum
+  slack : c.shared.buckets.sum + (c.locals.map (fun l => preInc l.pc)).sum ≤
+    (c.locals.map (fun l => (l.incsStarted : Int))).sum
+
+theorem Inv.step {n : Nat} (hn0 : 0 < n) {c : Config Shared Local} (hI : Inv n c) {i : Nat} {l l' : Local}
+    {s' : Shared} (hi : c.locals[i]? = some l) (hs : RC.step i c.shared l = some (s', l')) :
+    Inv n { shared := s', locals := c.locals.set i l' } := by
+  have hr := step_spec i c.shared s' l l' hs
+  have hl : l ∈ c.locals := List.mem_of_getElem? hi
+  have hW : WPc c.shared.n l.pc := by rw [hI.hn]; exact hI.W l hl
+  have hn1 : 0 < c.shared.n := by rw [hI.hn]; exact hn0
+  have hlen : c.shared.buckets.length = c.shared.n := by rw [hI.hn]; exact hI.len
+  refine ⟨?_, ?_, ?_, ?_, ?_, ?_, ?_⟩
+  · show s'.n = n
+    rw [sr_n hr]; exact hI.hn
+  · show s'.buckets.length = n
+    rw [sr_len hr]; exact hI.len
+  · intro x hx
+    rcases List.mem_or_eq_of_mem_set hx with hx | rfl
+    · exact hI.W x hx
+    · have := sr_W hr hn1 hW; rwa [hI.hn] at this
+  · exact sr_nonneg hr hI.nonneg
+  · show s'.rolling + ((c.locals.set i l').map _).sum = s'.buckets.sum
+    rw [sum_map_set _ _ _ _ _ hi]
+    have h1 := sr_cons hr hn1 hlen hW
+    have h2 := hI.cons
+    omega
+  · show s'.total = ((c.locals.set i l').map _).sum
+    rw [sum_map_set _ _ _ _ _ hi]
+    have h1 := sr_total hr
+    have h2 := hI.total
+    omega
+  · show s'.buckets.sum + ((c.locals.set i l').map _).sum ≤ ((c.locals.set i l').map _).sum
+    rw [sum_map_set _ _ _ _ _ hi, sum_map_set _ _ _ _ _ hi]
+    have h1 := sr_slack hr hn1 hlen hW hI.nonneg
+    have h2 := hI.slack
+    omega
+
+theorem Inv.init (n : Nat) (progs : List (List Op)) : Inv n (RC.init n progs) := by
+  have hpc : ∀ l ∈ (RC.init n progs).locals, l.pc = .next ∧ l.incsStarted = 0 := by
+    intro l hl
+    simp only [RC.init, List.mem_map] at hl
+    rcases hl with ⟨p, _, rfl⟩
+    exact ⟨rfl, rfl⟩
+  have hb : ∀ b ∈ (RC.init n progs).shared.buckets, b = 0 := by
+    intro b hb
+    simp only [RC.init] at hb
+    exact (List.mem_replicate.mp hb).2
+  have hsum : (RC.init n progs).shared.buckets.sum = 0 := sum_replicate_zero n
+  have h1 : ((RC.init n progs).locals.map (fun l => owesPc l.pc)).sum = 0 :=
+    sum_map_zero _ _ (fun l hl => by rw [(hpc l hl).1]; rfl)
+  have h2 : ((RC.init n progs).locals.map (fun l => preInc l.pc)).sum = 0 :=
+    sum_map_zero _ _ (fun l hl => by rw [(hpc l hl).1]; rfl)
+  have h3 : ((RC.init n progs).locals.map (fun l => (l.incsStarted : Int))).sum = 0 :=
+    sum_map_zero _ _ (fun l hl => by rw [(hpc l hl).2]; rfl)
+  refine ⟨rfl, ?_, ?_, ?_, ?_, ?_, ?_⟩
+  · simp [RC.init]
+  · intro l hl; rw [(hpc l hl).1]; exact True.intro
+  · intro b hb'; rw [hb b hb']; exact Int.le_refl 0
+  · rw [h1, hsum]; rfl
+  · rw [h3]; rfl
+  · rw [h2, h3, hsum]; exact Int.le_refl 0
+
+theorem Inv.run {n : Nat} (hn0 : 0 < n) (progs : List (List Op)) (sched : List Nat) :
+    Inv n (CM.Conc.run sys (RC.init n progs) sched) :=
+  run_inv sys (Inv n) (fun _ _ _ _ _ hI hi hs => Inv.step hn0 hI hi hs) _ (Inv.init n progs) sched
+
+/-- the invariant that refers to the threads' programs -/
+structure InvP (n : Nat) (progs : List (List Op)) (c : Config Shared Local) : Prop where
+  inv : Inv n c
+  count : (c.locals.map (fun l => ((l.incsStarted + countInc l.prog : Nat) : Int))).sum = (incCount progs : Nat)
+  bound : ∀ l ∈ c.locals, ReqsLe (maxRequested progs) l
+  lastB : c.shared.last ≤ maxRequested progs
+  cover : ∀ a, (∃ o ∈ progs.flatten, o.req = some a) → a ≤ c.shared.last ∨ ∃ l ∈ c.locals, pend l a
+
+theorem InvP.step {n : Nat} (hn0 : 0 < n) {progs : List (List Op)} {c : Config Shared Local} (hI : InvP n progs c)
+    {i : Nat} {l l' : Local} {s' : Shared} (hi : c.locals[i]? = some l)
+    (hs : RC.step i c.shared l = some (s', l')) :
+    InvP n progs { shared := s', locals := c.locals.set i l' } := by
+  have hr := step_spec i c.shared s' l l' hs
+  have hl : l ∈ c.locals := List.mem_of_getElem? hi
+  have hW : WPc c.shared.n l.pc := by rw [hI.inv.hn]; exact hI.inv.W l hl
+  have hilt : i < c.locals.length := by
+    rcases List.getElem?_eq_some_iff.mp hi with ⟨h, _⟩; exact h
+  have hb := sr_bound hr hW _ (hI.bound l hl) hI.lastB
+  refine ⟨Inv.step hn0 hI.inv hi hs, ?_, ?_, hb.2, ?_⟩
+  · show ((c.locals.set i l').map _).sum = _
+    rw [sum_map_set _ _ _ _ _ hi]
+    have h1 := sr_count hr
+    have h2 := hI.count
+    omega
+  · intro x hx
+    rcases List.mem_or_eq_of_mem_set hx with hx | rfl
+    · exact hI.bound x hx
+    · exact hb.1
+  · intro a ha
+    show a ≤ s'.last ∨ ∃ x ∈ c.locals.set i l', pend x a
+    rcases hI.cover a ha with h1 | ⟨x, hx, hp⟩
+    · left; exact Nat.le_trans h1 (sr_mono hr hW)
+    · rcases mem_set_cases_rc c.locals i l l' x hi hx with rfl | hx'
+      · rcases sr_pend hr a hp with h2 | h2
+        · left; exact h2
+        · right; exact ⟨l', List.mem_set hilt l', h2⟩
+      · right; exact ⟨x, hx', hp⟩
+
+theorem incCount_eq (progs : List (List Op)) : incCount progs = (progs.map countInc).sum := by
+  unfold incCount countInc
+  congr 2
+
+theorem req_le_maxRequested (progs : List (List Op)) (o : Op) (ho : o ∈ progs.flatten) (a : Nat)
+    (ha : o.req = some a) : a ≤ maxRequested progs := by
+  unfold maxRequested
+  apply le_foldl_max
+  right
+  exact List.mem_filterMap.mpr ⟨o, ho, ha⟩
+
+theorem InvP.init (n : Nat) (progs : List (List Op)) : InvP n progs (RC.init n progs) := by
+  refine ⟨Inv.init n progs, ?_, ?_, Nat.zero_le _, ?_⟩
+  · show ((progs.map fun p => ({ prog := p } : Local)).map _).sum = _
+    rw [List.map_map, incCount_eq, cast_sum_map]
+    congr 2
+    funext p
+    simp
+  · intro l hl
+    simp only [RC.init, List.mem_map] at hl
+    rcases hl with ⟨p, hp, rfl⟩
+    refine ⟨?_, Nat.zero_le _⟩
+    intro o ho a ha
+    exact req_le_maxRequested progs o (List.mem_flatten_of_mem hp ho) a ha
+  · rintro a ⟨o, ho, ha⟩
+    right
+    rcases List.mem_flatten.mp ho with ⟨p, hp, hop⟩
+    exact ⟨{ prog := p }, List.mem_map_of_mem hp, Or.inr ⟨o, hop, ha⟩⟩
+
+theorem InvP.run {n : Nat} (hn0 : 0 < n) (progs : List (List Op)) (sched : List Nat) :
+    InvP n progs (CM.Conc.run sys (RC.init n progs) sched) :=
+  run_inv sys (InvP n progs) (fun _ _ _ _ _ hI hi hs => InvP.step hn0 hI hi hs) _ (InvP.init n progs) sched
+
+/-- from any configuration satisfying `Inv`, no schedule moves `last` backwards -/
+theorem last_mono_run {n : Nat} (hn0 : 0 < n) (c : Config Shared Local) (hI : Inv n c) (sched : List Nat) :
+    c.shared.last ≤ (CM.Conc.run sys c sched).shared.last := by
+  have := run_inv sys (fun c' => Inv n c' ∧ c.shared.last ≤ c'.shared.last)
+    (fun c' i l s' l' hI' hi hs => by
+      refine ⟨Inv.step hn0 hI'.1 hi hs, Nat.le_trans hI'.2 ?_⟩
+      have hr := step_spec i c'.shared s' l l' hs
+      have hW : WPc c'.shared.n l.pc := by rw [hI'.1.hn]; exact hI'.1.W l (List.mem_of_getElem? hi)
+      exact sr_mono hr hW) c ⟨hI, Nat.le_refl _⟩ sched
+  exact this.2
+
+theorem quiescent_iff (c : Config Shared Local) :
+    quiescent c = true ↔ ∀ l ∈ c.locals, l.prog = [] ∧ l.pc = .next := by
+  simp [quiescent, List.all_eq_true]
+
+/-! ### the no-roll, no-reset case -/
+
+def okPc : Pc → Prop
+  | .next => True
+  | .incBucket _ => True
+  | .incRolling => True
+  | .sumLoad => True
+  | .gbLast => True
+  | .gbLoad _ _ => True
+  | .advLoad abs k => abs = 0 ∧ k ≠ .reset
+  | _ => False
+
+def okOp (o : Op) : Prop := (o.req = none ∨ o.req = some 0) ∧ ∀ r, o ≠ .reset r
+
+def isWin : Op → Bool
+  | .inc (some _) => true
+  | _ => false
+
+def winN (o : Op) : Nat := if isWin o then 1 else 0
+
+def countW (p : List Op) : Nat := (p.filter isWin).length
+
+def winCount (progs : List (List Op)) : Nat := (progs.flatten.filter isWin).length
+
+theorem countW_cons (o : Op) (rest : List Op) : countW (o :: rest) = winN o + countW rest := by
+  unfold countW winN
+  rw [List.filter_cons]
+  split <;> simp <;> omega
+
+theorem preInc_enter_win (o : Op) : preInc (enterAdvance o.req (opCont o)) = (winN o : Int) := by
+  cases o with
+  | inc r => cases r <;> simp [Op.req, opCont, winN, isWin, kInc]
+  | sumAt r => cases r <;> simp [Op.req, opCont, winN, isWin, kInc]
+  | getBuckets r => cases r <;> simp [Op.req, opCont, winN, isWin, kInc]
+  | reset r => cases r <;> simp [Op.req, opCont, winN, isWin, kInc]
+
+theorem okPc_enter_op (o : Op) (h : okOp o) : okPc (enterAdvance o.req (opCont o)) := by
+  rcases h with ⟨h1, h2⟩
+  cases o with
+  | inc r =>
+    rcases h1 with h1 | h1 <;> simp only [Op.req] at h1 <;> subst h1
+    · exact True.intro
+    · exact ⟨rfl, by simp [opCont]⟩
+  | sumAt r =>
+    rcases h1 with h1 | h1 <;> simp only [Op.req] at h1 <;> subst h1
+    · exact True.intro
+    · exact ⟨rfl, by simp [opCont]⟩
+  | getBuckets r =>
+    rcases h1 with h1 | h1 <;> simp only [Op.req] at h1 <;> subst h1
+    · exact True.intro
+    · exact ⟨rfl, by simp [opCont]⟩
+  | reset r => exact absurd rfl (h2 r)
+
+theorem okPc_after_some (k : Cont) (i : Nat) (h : k ≠ .reset) : okPc (afterAdvance k (some i)) := by
+  cases k
+  · exact True.intro
+  · exact True.intro
+  · exact True.intro
+  · exact absurd rfl h
+
+section deltaNR
+variable {s s' : Shared} {l l' : Local}
+
+theorem sr_nr_last (h : SR s l s' l') (h0 : s.last = 0) (hok : okPc l.pc) : s'.last = 0 := by
+  cases h <;> subst_vars <;> (try dsimp only) <;> (try exact h0)
+  case casOk abs i k hpc => rw [hpc] at hok; exact hok.elim
+  case finalCas abs lastVal k hpc => rw [hpc] at hok; exact hok.elim
+
+theorem sr_nr_ok (h : SR s l s' l') (h0 : s.last = 0) (hok : okPc l.pc) (hops : ∀ o ∈ l.prog, okOp o) :
+    okPc l'.pc := by
+  cases h <;> subst_vars <;> (try dsimp only)
+  case op o rest hpc hp => exact okPc_enter_op o (hops o (by rw [hp]; simp))
+  case loadHit abs k hpc hle => rw [hpc] at hok; exact okPc_after_some k _ hok.2
+  case loadOld abs k hpc hlt => omega
+  case loadNew abs k hpc hgt => rw [hpc] at hok; have := hok.1; omega
+  case casOk abs i k hpc => rw [hpc] at hok; exact hok.elim
+  case casFail abs lastVal i k hpc hne => rw [hpc] at hok; exact hok.elim
+  case swap abs lastVal i k hpc => rw [hpc] at hok; exact hok.elim
+  case dec abs lastVal i x k hpc => rw [hpc] at hok; exact hok.elim
+  case finalCas abs lastVal k hpc => rw [hpc] at hok; exact hok.elim
+  case incBucket => exact True.intro
+  case incRolling => exact True.intro
+  case sumLoad => exact True.intro
+  case gbLast => split <;> exact True.intro
+  case gbLoad => split <;> exact True.intro
+  case rsSwap i hpc hi => rw [hpc] at hok; exact hok.elim
+  case rsDone i hpc hi => exact True.intro
+  case rsDec i x hpc => rw [hpc] at hok; exact hok.elim
+
+theorem sr_nr_sum (h : SR s l s' l') (hn : 0 < s.n) (hlen : s.buckets.length = s.n) (hW : WPc s.n l.pc)
+    (h0 : s.last = 0) (hok : okPc l.pc) :
+    s'.buckets.sum + (preInc l'.pc + (countW l'.prog : Int)) = s.buckets.sum + (preInc l.pc + (countW l.prog : Int)) := by
+  cases h <;> subst_vars <;> (try dsimp only) <;> (repeat' split) <;>
+    (try simp only [*, preInc_after_some, preInc_after_none]) <;> (try simp only [preInc]) <;> (try omega)
+  case op o rest hpc hp =>
+    have := preInc_enter_win o
+    simp only [preInc] at this
+    rw [countW_cons]; omega
+  case swap abs lastVal i k hpc => rw [hpc] at hok; exact hok.elim
+  case incBucket idx hpc =>
+    rw [hpc] at hW
+    rw [sum_set _ _ _ (by rw [hlen]; exact hW)]; omega
+  case rsSwap i hpc hi => rw [hpc] at hok; exact hok.elim
+
+end deltaNR
+
+structure InvNR (progs : List (List Op)) (c : Config Shared Local) : Prop where
+  last0 : c.shared.last = 0
+  ok : ∀ l ∈ c.locals, okPc l.pc ∧ ∀ o ∈ l.prog, okOp o
+  sumW : c.shared.buckets.sum + (c.locals.map (fun l => preInc l.pc + (countW l.prog : Int))).sum =
+    (winCount progs : Nat)
+
+theorem InvNR.step {n : Nat} (hn0 : 0 < n) {progs : List (List Op)} {c : Config Shared Local} (hI : Inv n c)
+    (hN : InvNR progs c) {i : Nat} {l l' : Local} {s' : Shared} (hi : c.locals[i]? = some l)
+    (hs : RC.step i c.shared l = some (s', l')) :
+    InvNR progs { shared := s', locals := c.locals.set i l' } := by
+  have hr := step_spec i c.shared s' l l' hs
+  have hl : l ∈ c.locals := List.mem_of_getElem? hi
+  have hW : WPc c.shared.n l.pc := by rw [hI.hn]; exact hI.W l hl
+  have hn1 : 0 < c.shared.n := by rw [hI.hn]; exact hn0
+  have hlen : c.shared.buckets.length = c.shared.n := by rw [hI.hn]; exact hI.len
+  have hok := hN.ok l hl
+  refine ⟨sr_nr_last hr hN.last0 hok.1, ?_, ?_⟩
+  · intro x hx
+    rcases List.mem_or_eq_of_mem_set hx with hx | rfl
+    · exact hN.ok x hx
+    · exact ⟨sr_nr_ok hr hN.last0 hok.1 hok.2, fun o ho => hok.2 o (sr_prog_sub hr o ho)⟩
+  · show s'.buckets.sum + ((c.locals.set i l').map _).sum = _
+    rw [sum_map_set _ _ _ _ _ hi]
+    have h1 := sr_nr_sum hr hn1 hlen hW hN.last0 hok.1
+    have h2 := hN.sumW
+    omega
+
+theorem winCount_eq (progs : List (List Op)) : winCount progs = (progs.map countW).sum := by
+  unfold winCount countW
+  induction progs with
+  | nil => rfl
+  | cons p ps ih =>
+    simp only [List.flatten_cons, List.filter_append, List.length_append, List.map_cons, List.sum_cons, ih]
+
+theorem InvNR.init (n : Nat) (progs : List (List Op)) (hops : ∀ o ∈ progs.flatten, okOp o) :
+    InvNR progs (RC.init n progs) := by
+  refine ⟨rfl, ?_, ?_⟩
+  · intro l hl
+    simp only [RC.init, List.mem_map] at hl
+    rcases hl with ⟨p, hp, rfl⟩
+    exact ⟨True.intro, fun o ho => hops o (List.mem_flatten_of_mem hp ho)⟩
+  · show (List.replicate n (0 : Int)).sum + ((progs.map fun p => ({ prog := p } : Local)).map _).sum = _
+    rw [sum_replicate_zero, List.map_map, winCount_eq, cast_sum_map]
+    simp only [Int.zero_add]
+    congr 2
+    funext p
+    simp [preInc]
+
+theorem InvNR.run {n : Nat} (hn0 : 0 < n) (progs : List (List Op)) (hops : ∀ o ∈ progs.flatten, okOp o)
+    (sched : List Nat) :
+    InvNR progs (CM.Conc.run sys (RC.init n progs) sched) := by
+  have := run_inv sys (fun c => Inv n c ∧ InvNR progs c)
+    (fun _ _ _ _ _ hI hi hs => ⟨Inv.step hn0 hI.1 hi hs, InvNR.step hn0 hI.1 hI.2 hi hs⟩) _
+    ⟨Inv.init n progs, InvNR.init n progs hops⟩ sched
+  exact this.2
+
 end CM.Conc
